@@ -1502,6 +1502,35 @@ class NumpyModel(object):
                 return self.new(x.shape, 'bool', lambda *idx: z3.BoolVal(False))
             return False
 
+        def stat(name):
+            def f(I_, a, k):
+                return self.col_stat(name, a[0], k.get('axis', a[1] if len(a) > 1 else None))
+            return f
+        for nm in ('mean', 'median', 'std'):
+            T['numpy.' + nm] = Builtin('np.' + nm, stat(nm))
+
+        @reg('percentile')
+        def _percentile(I_, a, k):
+            qs = a[1] if len(a) > 1 else k['q']
+            axis = k.get('axis', a[2] if len(a) > 2 else None)
+            if isinstance(qs, Seq):
+                rows = [self.col_stat('percentile', a[0], axis, q=q) for q in qs.items]
+                if all(isinstance(r_, NDArr) for r_ in rows):
+                    fns = [r_.fn for r_ in rows]
+                    def fn2(r, c, fns=fns):
+                        e = fns[-1](c)
+                        for kk in range(len(fns) - 2, -1, -1):
+                            e = z3.If(r == kk, fns[kk](c), e)
+                        return e
+                    return self.finish([len(rows), rows[0].shape[0]], 'float', fn2, [self.as_array(a[0])])
+                return stamp(Seq('list', rows))
+            return self.col_stat('percentile', a[0], axis, q=qs)
+
+        @reg('ndim')
+        def _ndim(I_, a, k):
+            v = I.force(a[0])
+            return v.ndim if isinstance(v, NDArr) else 0
+
         @reg('dtype')
         def _dtype(I_, a, k):
             d = a[0]
@@ -1600,6 +1629,41 @@ class NumpyModel(object):
         out.writeable = False
         out.memmap_of = (fm, off, bits, big)
         return out
+
+    # ---- column statistics (assumed textbook reductions: A-LIB) ---------------------------------
+    def col_stat(self, name, X, axis, q=None):
+        """np.mean/median/std/percentile, scipy.stats.gmean/mode over axis 0: an uninterpreted function of the
+        column's values (as an Int->Real array) and its length.  Callers get STAT(lambda i. X[i, c], N)."""
+        from .interp import raise_py
+        I = self.I
+        X = self.as_array(X)
+        if axis not in (0, None) or (axis is None and X.ndim != 1):
+            raise Unsupported('%s over axis %r' % (name, axis))
+        if X.dtype not in ('float', 'int', 'uint', 'bool'):
+            raise Unsupported('%s of a %s array' % (name, X.dtype))
+        if q is not None and X.cls == 'FCSData' and X.dtype == 'float':
+            # behavioural-subtyping precondition (measured on the installed NumPy: np.percentile probes float input
+            # with arr[-1, ...]): the subclass' __getitem__ must accept that key
+            self.ax('np.percentile indexes a float argument with (-1, Ellipsis) (NaN probe)')
+            from .interp import stamp as _st
+            I.getitem(X, _st(Seq('tuple', [-1, ELLIPSIS])))
+        AS = z3.ArraySort(z3.IntSort(), z3.RealSort())
+        sig = [AS, z3.IntSort()] + ([z3.RealSort()] if q is not None else []) + [z3.RealSort()]
+        F = z3.Function('STAT_' + name, *sig)
+        self.ax('%s(axis=0) is the textbook statistic of each column (assumed)' % name)
+        N = self.dim_z(X.shape[0])
+        xf = X.fn
+        dt = X.dtype
+        i = z3.Int('cs_i')
+
+        def col(*rest):
+            return z3.Lambda([i], self.cast(xf(i, *rest), dt, 'float'))
+        extra = [I.z(q, 'real')] if q is not None else []
+        if X.ndim == 1:
+            return self.scalar(F(col(), N, *extra), 'float')
+        if X.ndim == 2:
+            return self.finish([X.shape[1]], 'float', lambda c: F(col(c), N, *extra), [X])
+        raise Unsupported('%s of a %d-d array' % (name, X.ndim))
 
     def allclose(self, a, k):
         I = self.I
